@@ -20,6 +20,8 @@ Kinds == {"call", "ret", "wf", "wbad", "at", "drift", "hbin", "end"}
 InitSt(e) == [q |-> <<>>,          \* task -> sequence of chunks <<cmd, sid, len>> not yet on the wire
               syn |-> {},          \* stream ids whose SYN has been seen on the wire
               nopen |-> 0,         \* open_stream calls so far: stream ids are allocated in call order, from 1
+              par |-> ("consts" \in DOMAIN e /\ "par" \in DOMAIN e.consts /\ e.consts.par),   \* parallel scenario: judged per stream
+              strm |-> <<>>,       \* parallel: stream id -> lengths of its data frames on the wire, in order
               hbin |-> 0,          \* keep-alive requests received from the peer and not answered yet
               n |-> 0]             \* non-waste frames seen
 
@@ -28,7 +30,9 @@ No(s, why) == [ok |-> FALSE, st |-> s, why |-> why, dev |-> "", site |-> ""]
 Put(f, k, v) == [x \in DOMAIN f \cup {k} |-> IF x = k THEN v ELSE f[x]]
 Q(s, t) == IF t \in DOMAIN s.q THEN s.q[t] ELSE <<>>
 
-Matches(c, h, len) == c[1] = h[1] /\ c[2] = W!HSid(h) /\ (c[3] = -1 \/ c[3] = len)
+\* (a chunk announced with the wildcard id <<-1,-1,-1,-1>> matches any id: parallel scenarios, where the order in which
+\* the session allocates ids is not the order in which the harness logged the calls)
+Matches(c, h, len) == c[1] = h[1] /\ (c[2] = W!HSid(h) \/ c[2] = <<-1, -1, -1, -1>>) /\ (c[3] = -1 \/ c[3] = len)
 
 Apply(s, e) ==
     CASE e.ev = "call" ->
@@ -47,6 +51,13 @@ Apply(s, e) ==
                 ELSE IF h[1] = 8 /\ e.len = 0 THEN Ok([s EXCEPT !.n = @ + 1])
                 ELSE IF h[1] = 9 /\ e.len = 0 /\ s.hbin > 0 THEN Ok([s EXCEPT !.n = @ + 1, !.hbin = @ - 1])
                 ELSE IF h[1] = 2 /\ W!HSid(h) \notin s.syn THEN No(s, "data frame of a stream before that stream's opening frame")
+                \* parallel scenarios: ids are allocated in an order the harness cannot know; frames are collected per stream
+                \* and compared with the tasks' programs at the end
+                ELSE IF s.par /\ h[1] = 1 THEN (IF W!HSid(h) \in s.syn THEN No(s, "a stream was opened twice on the wire")
+                                                 ELSE Ok([s EXCEPT !.syn = @ \cup {W!HSid(h)}, !.n = @ + 1, !.strm = Put(@, W!HSid(h), <<>>)]))
+                ELSE IF s.par /\ h[1] = 2 THEN (IF ~e.eq THEN No(s, "frame payload differs from what was submitted")
+                                                 ELSE Ok([s EXCEPT !.strm = Put(@, W!HSid(h), Append(@[W!HSid(h)], e.len)), !.n = @ + 1]))
+                ELSE IF s.par /\ h[1] = 4 THEN (IF s.n # 0 THEN No(s, "a second settings frame") ELSE Ok([s EXCEPT !.n = @ + 1]))
                 ELSE IF cands = {} THEN No(s, "frame on the wire is not the next unsent frame of any task (reordered, duplicated or foreign)")
                 ELSE IF ~e.eq THEN No(s, "frame payload differs from what was submitted")
                 ELSE LET t == CHOOSE t \in cands : TRUE IN
@@ -59,6 +70,13 @@ Apply(s, e) ==
       [] e.ev = "end" ->
             IF e.panics # 0 THEN No(s, "a task panicked")
             ELSE IF e.hung # 0 THEN No(s, "a call never returned")
+            ELSE IF s.par THEN
+                 \* every task that opened a stream owns exactly one stream, and that stream carries the task's data frames in order
+                 LET DataLens(q) == LET d == SelectSeq(q, LAMBDA c : c[1] = 2) IN [i \in 1..Len(d) |-> d[i][3]]
+                     want == {DataLens(s.q[t]) : t \in {t \in DOMAIN s.q : \E i \in 1..Len(s.q[t]) : s.q[t][i][1] = 1}}
+                     got  == {s.strm[x] : x \in DOMAIN s.strm}
+                 IN  IF got = want /\ Cardinality(DOMAIN s.strm) = Cardinality(want) THEN Ok(s)
+                     ELSE No(s, "the data frames of the streams on the wire are not the tasks' submissions, each in its own stream and order (dropped, reordered or on the wrong stream)")
             ELSE IF \E t \in DOMAIN s.q : s.q[t] # <<>> THEN No(s, "a submitted frame never reached the transport")
             ELSE Ok(s)
       [] OTHER -> No(s, "unknown event")
